@@ -13,7 +13,7 @@ def VA.Fits (c : Cfg) : VA → Prop
     vals.tid < 256
   | .bit vt rows bits =>
     isInt32 rows ∧ vt < 256 ∧ 0 ≤ packedSize rows ∧ bits.length = (packedSize rows).toNat ∧
-    packedSize rows + 4 ≤ c.cap ∧ packedSize rows ≤ INT_MAX
+    packedSize rows + 4 ≤ c.cap ∧ packedSize rows ≤ INT_MAX ∧ 0 ≤ rows
 
 theorem runsObj_flatten (runs : Bytes) : (runsObj runs).elems.flatten = runs := by
   unfold runsObj
@@ -58,13 +58,15 @@ theorem reads_va (c : Cfg) (va : VA) (h : va.Fits c) : Reads (readVA c) (Spec.va
     rw [runsObj_flatten] at this ⊢
     exact this
   | bit vt rows bits =>
-    obtain ⟨hr, ht, hps0, hlen, hcap, hmax⟩ := h
+    obtain ⟨hr, ht, hps0, hlen, hcap, hmax, hrows⟩ := h
     simp only [Spec.va]
     refine Reads.bind (bs := [3]) (cs := UInt8.ofNat vt :: (le c rows ++ bits)) (reads_int8_lit 3) ?_
     refine Reads.bind (bs := [UInt8.ofNat vt]) (cs := le c rows ++ bits) (reads_int8_lit _) ?_
     simp only [show (3 : UInt8).toNat = 3 from rfl, show ¬ (3 = 1) by omega, show ¬ (3 = 2) by omega,
       if_false, if_true, ofNat_toNat_lt vt ht]
     refine Reads.bind (reads_int32 c rows hr) ?_
+    have hnn : ¬ (rows < 0) := by omega
+    simp only [hnn, if_false]
     refine Reads.nil_bind (a := ()) (Reads.allocOk c _ hps0 (by omega)) ?_
     have hb := Reads.readN' bits hlen
     have := Reads.bind hb (f := fun b => P.bind (allocBa c (packedSize rows)) (fun _ => P.pure (VA.bit vt rows b)))
@@ -100,13 +102,15 @@ theorem reads_skipVA (c : Cfg) (va : VA) (h : va.Fits c) : Reads (skipVA c) (Spe
       reads_skipObjArr c (runsObj runs) hfr (by intro h; simp [runsObj, isArr] at h)
     exact Reads.bind h1 (reads_skipObjArr c vals hfv hbs)
   | bit vt rows bits =>
-    obtain ⟨hr, ht, hps0, hlen, hcap, hmax⟩ := h
+    obtain ⟨hr, ht, hps0, hlen, hcap, hmax, hrows⟩ := h
     simp only [Spec.va]
     refine Reads.bind (bs := [3]) (cs := UInt8.ofNat vt :: (le c rows ++ bits)) (reads_int8_lit 3) ?_
     refine Reads.bind (bs := [UInt8.ofNat vt]) (cs := le c rows ++ bits) (reads_int8_lit _) ?_
     simp only [show (3 : UInt8).toNat = 3 from rfl, show ¬ (3 = 1) by omega, show ¬ (3 = 2) by omega,
       if_false, if_true, ofNat_toNat_lt vt ht]
     refine Reads.bind (reads_int32 c rows hr) ?_
+    have hnn : ¬ (rows < 0) := by omega
+    simp only [hnn, if_false]
     apply Reads.seekExact
     rw [hlen]; omega
 
